@@ -347,6 +347,10 @@ def generate(rng, run, tier):
             nm = rng.choice(['Later', 'Later2'])
             if avoid_plain and nm in defined_names:
                 hist.append({'op': 'defdec', 'n': nm, 'decorated': True} if defined_names[nm] else {'op': 'gc'})
+            elif nm not in defined_names and rng.random() < 0.3:
+                # the name is first bound to something that is not a hint at all (a forward reference resolved now fails and
+                # must not be remembered), and may be bound to a class later
+                hist.append({'op': 'define', 'n': nm, 'junk': rng.choice([42, 3.5])})
             else:
                 hist.append({'op': 'define', 'n': nm})
                 defined_names.setdefault(nm, False)
@@ -440,7 +444,10 @@ def _apply(op, env, probes=None):
             except Exception:   # noqa
                 pass
     elif k == 'define':
-        setattr(env['mod'], op['n'], type(op['n'], (), {'__module__': MODNAME}))
+        if 'junk' in op:
+            setattr(env['mod'], op['n'], op['junk'])
+        else:
+            setattr(env['mod'], op['n'], type(op['n'], (), {'__module__': MODNAME}))
     elif k == 'defdec':
         from beartype import beartype
         c = type(op['n'], (), {'__module__': MODNAME, 'm': _mk_method()})
@@ -483,8 +490,10 @@ def _query(op, env):
         name = 'Later2' if 'Later2' in text else 'Later'
         cls = env['mod'].__dict__.get(name)
         xk = op['xk']
-        if xk in ('inst', 'wrapped') and cls is None:
-            return ['skipped']
+        if not isinstance(cls, type):
+            cls = None          # undefined, or bound to a non-hint value: there is no instance to pass
+            if xk in ('inst', 'wrapped'):
+                xk = 'other'
         other = type('Other', (), {})
         inst = cls() if cls is not None else None
         x = {'inst': inst, 'other': other(), 'int': 5}.get(xk)
